@@ -670,6 +670,38 @@ example : (2 : ℝ) / 5 < sumSq (softOneHotRow .smoothFinite false (0 : ℝ) 1 3
   · rw [(centres_ends_no_cutoff 0 1 3 (by norm_num)).1]; norm_num
   · rw [(centres_ends_no_cutoff 0 1 3 (by norm_num)).2]; norm_num
 
+/-! ## `number = 1` with `cutoff=True`
+
+The theorems above assume `2 ≤ number` (without cutoff the code reads `values[1]` of a one-element tensor and raises).  With
+`cutoff=True` a single function is valid: `values = linspace(start, end, 3)[1:-1]`, step `(end − start)/2`.  (Seeded change C16-8
+computed the step from the sliced values there.) -/
+
+/-- one function with cutoff: the step is half the interval and the centre is its midpoint -/
+theorem one_function_cutoff (start stop : ℝ) :
+    stepOf start stop 1 true = (stop - start) / 2 ∧ center start stop 1 true 0 = (start + stop) / 2 := by
+  constructor
+  · simp only [stepOf, linSteps, if_true]
+    rw [linspaceAt_real _ _ _ _ (by norm_num) (by norm_num), linspaceAt_real _ _ _ _ (by norm_num) (by norm_num)]
+    push_cast; ring
+  · simp only [center, linSteps, if_true]
+    rw [linspaceAt_real _ _ _ _ (by norm_num) (by norm_num)]
+    push_cast; ring
+
+/-- … and the finite-support families vanish at and beyond both ends (exactly 0), as for `number ≥ 2` -/
+theorem one_function_cutoff_support (start stop : ℝ) (h : start < stop) (x : ℝ) (hx : x ≤ start ∨ stop ≤ x) :
+    softOneHotRow .cosine true start stop 1 x = [0] ∧ softOneHotRow .smoothFinite true start stop 1 x = [0] := by
+  have hs : 0 < (stop - start) / 2 := by linarith
+  have hd : diffAt start stop 1 true x 0 ≤ -1 ∨ 1 ≤ diffAt start stop 1 true x 0 := by
+    rw [diffAt, (one_function_cutoff start stop).1, (one_function_cutoff start stop).2]
+    rcases hx with hx | hx
+    · left; rw [div_le_iff₀ hs]; linarith
+    · right; rw [le_div_iff₀ hs]; linarith
+  constructor
+  · simp only [softOneHotRow, List.range_one, List.map_cons, List.map_nil, basisAt]
+    rw [cosineOf_eq_zero hd]
+  · simp only [softOneHotRow, List.range_one, List.map_cons, List.map_nil, basisAt]
+    rw [smoothFiniteOf_eq_zero hd]
+
 /-! ## normalize2mom -/
 
 /-- when the shortcut is not taken, `f(x)·cst` has second moment exactly 1 over the very sample that
